@@ -253,7 +253,7 @@ fn $name(depth: usize) -> i32 {
     fn poll_stream(s: &mut Stream<u32>) -> std::task::Poll<Option<$krate::Reply<u32>>> {
         poll_stream_w(s, &std::sync::Arc::new(Wakes(std::sync::atomic::AtomicUsize::new(0))))
     }
-    // ops: 0 = set, 1 = subscribe, 2.. = poll subscriber (op - 2)
+    // ops: 0 = set, 1 = subscribe, 2..4 = poll subscriber (op - 2), 5 = the state is replaced by a clone of itself (the original dropped)
     let mut seq = vec![0usize; 0];
     let mut total = 0u64;
     fn run(ops: &[usize]) -> Result<(), String> {
@@ -287,8 +287,9 @@ fn $name(depth: usize) -> i32 {
                                *parked = None;
                            }
                        } }
+                5 => { let c = state.clone(); state = c; }   // the state lives on in a clone; the instance it was cloned from is dropped
                 1 => { if subs.len() < 3 { let s = state.stream(); subs.push((s, Vec::new(), next - 1, std::sync::Arc::new(Wakes(std::sync::atomic::AtomicUsize::new(0))), None)); } }
-                k => { let i = k - 2; if i < subs.len() { step(&mut subs, i)?; } }
+                k => { let i = k - 2; if i < subs.len() && i < 3 { step(&mut subs, i)?; } }
             }
         }
         for i in 0..subs.len() {
@@ -306,7 +307,7 @@ fn $name(depth: usize) -> i32 {
     'outer: loop {
         total += 1;
         if let Err(e) = run(&seq) {
-            println!("schedule {:?} (0 = set, 1 = subscribe, k >= 2 = poll subscriber k-2): {e}", seq);
+            println!("schedule {:?} (0 = set, 1 = subscribe, 2..4 = poll subscriber k-2, 5 = state replaced by its clone): {e}", seq);
             println!("REPLAY: FAILS on the real code");
             rc = 1;
             break;
@@ -316,7 +317,7 @@ fn $name(depth: usize) -> i32 {
         loop {
             if i == 0 { if seq.len() == depth { break 'outer; } seq = vec![0; seq.len() + 1]; break; }
             i -= 1;
-            if seq[i] < 4 { seq[i] += 1; for j in i + 1..seq.len() { seq[j] = 0; } break; }
+            if seq[i] < 5 { seq[i] += 1; for j in i + 1..seq.len() { seq[j] = 0; } break; }
         }
     }
     // one-shot: notify before / after the first poll; notifier dropped
